@@ -524,6 +524,12 @@ class Contract:
         results = []
         n_paths = len(outcomes)
         uncovered = []
+        cut = [False]
+        budget = float(os.environ.get('PYVC_CONTRACT_BUDGET_S', '150'))
+
+        def budget_cut(res):
+            # once a violation of this contract is established, the remaining obligations are only attempted while time allows
+            return (time.time() - t0) > budget and any(r.status == 'failed' for r in res)
         for k, o in enumerate(outcomes):
             path_id = ''.join('T' if d else 'F' for d in o.decisions) or '-'
             I.st = o.state
@@ -554,6 +560,12 @@ class Contract:
                     continue
                 if formula is None:
                     continue
+                if budget_cut(results):
+                    results.append(Result('%s/%s' % (self.name, cl.name), cl.props, 'unknown', '-', 0, path=path_id, clause=cl,
+                                          contract=self, detail='not attempted: the contract already has a failed obligation and '
+                                                                'has used its time budget'))
+                    cut[0] = True
+                    continue
                 results.append(self._discharge('%s/%s' % (self.name, cl.name), cl.props, o, formula, path_id, cl,
                                                want_models))
         # obligations raised at call sites along each path (callee preconditions, accounting checks)
@@ -565,6 +577,9 @@ class Contract:
                     continue
                 done.add(id(ob))
                 obp = getattr(ob, 'props', None) or self.props
+                if budget_cut(results):
+                    cut[0] = True
+                    continue
                 st, be, secs, model, solver = check_valid(ob.pc, ob.formula)
                 r = Result('%s/%s' % (self.name, ob.name), obp, st, be, secs,
                            detail=ob.note, path=path_id, contract=self)
@@ -580,7 +595,7 @@ class Contract:
         info = {'paths': n_paths, 'seconds': time.time() - t0, 'branch_checks': I.n_branch_checks,
                 'outcomes': [o.kind + (':' + o.value.cls if o.kind == 'raise' else '') +
                              (':%d' % getattr(o, 'yield_index', 0) if o.kind == 'yield' else '') for o in outcomes],
-                'dropped': sorted(I.dropped), 'cover': self.cover(outcomes), 'uncovered': uncovered}
+                'dropped': sorted(I.dropped), 'cover': self.cover(outcomes), 'uncovered': uncovered, 'budget_cut': cut[0]}
         self.outcomes = outcomes
         return results, info
 
